@@ -394,6 +394,10 @@ impl<T: Storage> RaftLog<T> {
             )
         }
         self.unstable.truncate_and_append(ents);
+        // persisted should be decreased because entries are changed
+        if self.persisted > after {
+            self.persisted = after;
+        }
         self.last_index()
     }
 
